@@ -32,6 +32,8 @@ def run(ctx, sess):
     ctx.rule('C12.5', 'the map answers only when complete and safe: attached after a successful load (shared with C04.9); a successful realloc installed, bisection inside the arrays, slope divisor compared with zero (shared with C10.19, C10.20, C10.25)')
     ctx.rule('C12.7', 'the map never stores past its arrays: every store at [entries_length] lies behind a compare of entries_length with entries_alloc, or every caller reserves first through a helper whose growth was evaluated (finite-domain trace: capacity >= requested count on return) for the requests that caller can make')
     ctx.rule('C12.8', 'the map is loaded from every stored pair: the sample id at which a loader of the id<->time map (a caller of the UTC iteration whose callback adds to a map) starts the iteration is a constant below every id that can be stored (<= -2^61) - a start that depends on the signal (one hour of samples before the first one) leaves earlier pairs out of the map although jls_rd_utc returns them, and the conversion then extrapolates instead of reproducing them')
+    ctx.rule('C12.9', 'the pairs that are delivered are the pairs that were converted: where jls_core_utc hands a range of a summary chunk (pointer, count) to the callback after subtracting the sample id offset in place, the subtraction covers exactly that range - the loop starts at the index the pointer is advanced by and ends at the entry count the count is derived from, or a helper receives the very pointer and count that are delivered')
+    ctx.rule('C12.10', 'conversion arithmetic keeps sign and range (the two structural parts; accuracy to one tick is value arithmetic and not decided): a product of two 64-bit differences is never formed in integer arithmetic, and extrapolation works on both sides of the map: in the conversion functions of tmap.c a difference that involves the queried sample id or time (negative for a query before the first pair) is never converted to an unsigned type - neither by a cast nor by a macro that takes its argument as uint64_t')
     ctx.rule('C12.6', 'a callback that asks to stop ends the UTC iteration, and every delivery hands over the buffer just read')
 
     w = P.fn('jls_wr_utc')
@@ -167,6 +169,8 @@ def run(ctx, sess):
 
     map_append_rule(ctx, P, 'C12.7')
     map_load_start_rule(ctx, P, 'C12.8')
+    delivered_range_rule(ctx, P, r, 'C12.9')
+    signed_delta_rule(ctx, P, 'C12.10')
 
     # ---- C12.6
     cbs = [ev for ev in r.events('call') if ev.callee is None]
@@ -319,3 +323,166 @@ def map_load_start_rule(ctx, P, rule):
                    ('the iteration starts at %s: pairs stored before that id are returned by jls_rd_utc but never reach the map, so converting their sample id extrapolates from a later segment instead of reproducing the stored time' %
                     (('the constant %d' % val) if val is not None else 'a value that depends on the signal (%s)' % show(a))))
     ctx.floor('map loaders', n, 1)
+
+
+def delivered_range_rule(ctx, P, r, rule):
+    from ..graph import loops
+    off_names = set()
+    for ev in r.events():
+        if ev.k == 'decl' and ev.e is not None and any(m.get('op') == 'member' and m.get('field') == 'sample_id_offset' for m in walk(ev.e)):
+            off_names.add(ev.name)
+
+    def is_off(e):
+        e = strip_casts(e)
+        return (e.get('op') == 'ref' and e.get('name') in off_names) or (e.get('op') == 'member' and e.get('field') == 'sample_id_offset')
+
+    def local_def(name):
+        d = [ev for ev in r.events() if ev.k == 'decl' and ev.name == name and ev.e is not None]
+        return strip_casts(d[0].e) if len(d) == 1 else None
+    # helpers of this file that subtract their third argument from param0[i].sample_id for i < param1
+    helpers = {}
+    for g in P.fns_in(r.file):
+        if g is r or len(g.params) < 3:
+            continue
+        for ev in g.stores():
+            lhs, rhs, o = ev.store_parts()
+            l0 = strip_casts(lhs)
+            if o == '-=' and l0.get('op') == 'member' and l0.get('field') == 'sample_id' and rhs is not None and strip_casts(rhs).get('op') == 'ref':
+                base = strip_casts(l0['k'][0])
+                if base.get('op') == 'sub' and strip_casts(base['k'][0]).get('name') == g.params[0]['name']:
+                    pi = [i for i, p_ in enumerate(g.params) if p_['name'] == strip_casts(rhs)['name']]
+                    # the loop bound is a parameter
+                    bound = None
+                    for h, body in loops(g).items():
+                        if ev.block.id in body:
+                            c = strip_casts(g.blocks[h].cond) if g.blocks[h].cond is not None else None
+                            if c is not None and c.get('op') == 'bin' and c['o'] == '<' and strip_casts(c['k'][1]).get('op') == 'ref':
+                                bi = [i for i, p_ in enumerate(g.params) if p_['name'] == strip_casts(c['k'][1])['name']]
+                                bound = bi[0] if bi else None
+                    if pi and bound is not None:
+                        helpers[g.name] = (0, bound, pi[0])
+    n = 0
+    lp = loops(r)
+    for cb in [ev for ev in r.events('call') if ev.callee is None]:
+        if len(cb.args) < 3:
+            continue
+        ptr, cnt = strip_casts(cb.args[1]), strip_casts(cb.args[2])
+        # in-place conversions that can reach this delivery
+        convs = []
+        for ev in r.stores():
+            lhs, rhs, o = ev.store_parts()
+            l0 = strip_casts(lhs)
+            if o == '-=' and l0.get('op') == 'member' and l0.get('field') == 'sample_id' and rhs is not None and is_off(rhs) and \
+                    find_path(r, ev, lambda e2, facts: 'target' if e2 is cb else ('stop' if (e2.k == 'call' and e2.callee == 'jls_core_rd_chunk') else None), refine=False) is not None:
+                convs.append(('loop', ev))
+        for c in r.calls(tuple(helpers)) if helpers else []:
+            if find_path(r, c, lambda e2, facts: 'target' if e2 is cb else ('stop' if (e2.k == 'call' and (e2.callee is None or e2.callee == 'jls_core_rd_chunk')) else None), refine=False) is not None:
+                convs.append(('helper', c))
+        if not convs:
+            continue        # this delivery hands over values converted when they were built (C12.2 decides those)
+        n += 1
+        why = []
+        for kind, ev in convs:
+            if kind == 'helper':
+                a_ptr, a_cnt = strip_casts(ev.args[helpers[ev.callee][0]]), strip_casts(ev.args[helpers[ev.callee][1]])
+                if show(a_ptr) != show(ptr) or show(a_cnt) != show(cnt):
+                    why.append('%s converts (%s, %s) but (%s, %s) is delivered' % (ev.callee, show(a_ptr), show(a_cnt), show(ptr), show(cnt)))
+                continue
+            l0 = strip_casts(ev.store_parts()[0])
+            sub = strip_casts(l0['k'][0])
+            if sub.get('op') != 'sub':
+                why.append('conversion %s is not over an indexed range' % show(l0))
+                continue
+            base, idx = strip_casts(sub['k'][0]), strip_casts(sub['k'][1])
+            # the loop of the conversion: init and bound of its index
+            init = bound = None
+            for h, body in lp.items():
+                if ev.block.id in body and idx.get('op') == 'ref':
+                    c = strip_casts(r.blocks[h].cond) if r.blocks[h].cond is not None else None
+                    if c is not None and c.get('op') == 'bin' and c['o'] == '<' and strip_casts(c['k'][0]).get('name') == idx['name']:
+                        bound = strip_casts(c['k'][1])
+                        init = local_def(idx['name'])
+                        if init is None:
+                            st = [s_ for s_ in r.stores() if s_.k == 'store' and strip_casts(s_.store_parts()[0]).get('name') == idx['name'] and s_.store_parts()[2] == '=' and s_.block.id not in body]
+                            init = strip_casts(st[0].store_parts()[1]) if len(st) == 1 else None
+            if init is None or bound is None:
+                why.append('range of the conversion at line %d not recognised' % ev.ln)
+                continue
+            # delivered pointer = base + init ; delivered count = bound - init
+            p_ok = (ptr.get('op') == 'bin' and ptr['o'] == '+' and show(strip_casts(ptr['k'][0])) == show(base) and show(strip_casts(ptr['k'][1])) == show(init)) or \
+                   (const_of(init) == 0 and show(ptr) == show(base))
+            cdef = local_def(cnt['name']) if cnt.get('op') == 'ref' else cnt
+            c_ok = cdef is not None and ((cdef.get('op') == 'bin' and cdef['o'] == '-' and show(strip_casts(cdef['k'][0])) == show(bound) and show(strip_casts(cdef['k'][1])) == show(init)) or
+                                         (const_of(init) == 0 and show(cdef) == show(bound)))
+            if not (p_ok and c_ok):
+                why.append('entries [%s, %s) of %s are converted, (%s, %s) is delivered' % (show(init), show(bound), show(base), show(ptr), show(cnt) if cdef is None else show(cdef)))
+        ctx.ob(rule, not why, r.name, 'converted range = delivered range', cb.where(),
+               'the conversion covers exactly what the callback receives' if not why else
+               '; '.join(why) + ': entries outside the converted range are handed over with file sample ids (off by the first sample id of the signal), entries converted but not delivered do no harm')
+    ctx.floor('deliveries of ranges converted in place', n, 1)
+
+
+def signed_delta_rule(ctx, P, rule):
+    n = 0
+    for fn in P.fns_in('src/tmap.c'):
+        if len(fn.params) < 2:
+            continue
+        # values derived from the query: the scalar parameters and locals computed from them
+        q = set(p_['name'] for p_ in fn.params[1:] if (p_.get('t') or '') in ('i64', 'f64'))
+        if not q:
+            continue
+        changed = True
+        while changed:
+            changed = False
+            for ev in fn.events():
+                if ev.k == 'decl' and ev.e is not None and ev.name not in q and any(m.get('op') == 'ref' and m.get('name') in q for m in walk(ev.e)):
+                    q.add(ev.name)
+                    changed = True
+        bad = []
+        seen = 0
+        deltas = {}
+        for ev in fn.events():
+            if ev.k == 'decl' and ev.e is not None and (ev.t or '').startswith('i'):
+                d0 = strip_casts(ev.e)
+                if d0.get('op') == 'bin' and d0['o'] == '-' and any(m.get('op') == 'ref' and m.get('name') in q for m in walk(d0)):
+                    deltas[ev.name] = d0
+        for b in fn.blocks.values():
+            for e in [ev.e for ev in b.events if getattr(ev, 'e', None) is not None] + ([b.cond] if b.cond is not None else []):
+                for nd in walk(e):
+                    if nd.get('op') != 'cast' or not (nd.get('t') or '').startswith('u') or (nd.get('t') or '') in ('u1',):
+                        continue
+                    inner = strip_casts(nd['k'][0])
+                    if inner.get('op') == 'bin' and inner['o'] == '-' and (inner.get('t') or '').startswith('i') and \
+                            any(m.get('op') == 'ref' and m.get('name') in q for m in walk(inner)):
+                        bad.append((nd, inner))
+                    if inner.get('op') == 'ref' and inner.get('name') in deltas:
+                        bad.append((nd, deltas[inner['name']]))
+                    if inner.get('op') == 'bin' and inner['o'] == '-':
+                        seen += 1
+                for nd in walk(e):
+                    if nd.get('op') == 'bin' and nd['o'] == '-' and any(m.get('op') == 'ref' and m.get('name') in q for m in walk(nd)):
+                        seen += 1
+        if not seen:
+            continue
+        n += 1
+        ctx.saw(fn, 1)
+        # a product of two 64-bit differences does not fit 64 bits for realistic spans (2^42 ticks per hour x samples per hour)
+        alld = set(ev.name for ev in fn.events() if ev.k == 'decl' and ev.e is not None and (ev.t or '') in ('i64', 'u64') and
+                   strip_casts(ev.e).get('op') == 'bin' and strip_casts(ev.e)['o'] == '-')
+        def is_delta(x):
+            x = strip_casts(x)
+            return (x.get('op') == 'ref' and x.get('name') in alld) or (x.get('op') == 'bin' and x['o'] == '-' and (x.get('t') or '') in ('i64', 'u64'))
+        prods = []
+        for b in fn.blocks.values():
+            for e in [ev.e for ev in b.events if getattr(ev, 'e', None) is not None] + ([b.cond] if b.cond is not None else []):
+                for nd in walk(e):
+                    if nd.get('op') == 'bin' and nd['o'] == '*' and (nd.get('t') or '') in ('i64', 'u64') and is_delta(nd['k'][0]) and is_delta(nd['k'][1]):
+                        prods.append(nd)
+        ctx.ob(rule, not prods, fn.name, 'no 64-bit integer product of two differences', fn.where(),
+               'differences are multiplied in floating point only' if not prods else
+               '%s is computed in 64-bit integer arithmetic: a span of an hour is 2^42 ticks, so with more than 2^21 samples between two pairs the product overflows and the interpolated value is garbage' % show(prods[0]))
+        ctx.ob(rule, not bad, fn.name, 'differences with the queried value stay signed', fn.where(),
+               'no difference of the query is converted to an unsigned type' if not bad else
+               '%s is converted to %s%s: for a query before the pair the difference is negative and becomes a count near 2^64, so the result is off by about 2^64 / rate ticks instead of extrapolating backwards' %
+               (show(bad[0][1]), bad[0][0].get('t'), (' (inside %s)' % bad[0][0].get('m')) if bad[0][0].get('m') else ''))
+    ctx.floor('conversion functions with query differences', n, 2)
